@@ -34,8 +34,8 @@ ASSUMPTIONS = [
     "stationarity of normalize() and everything about mle() is asserted only on strongly connected (C + prior)",
     "when a prior is added to a sparse input any dense numpy result (ndarray, including the np.matrix scipy returns for "
     "spmatrix + ndarray) is accepted as 'legitimately densified'",
-    "mle() cases whose Prinz iteration needs more than 4000 sweeps (measured with the compiled estimator) are skipped: "
-    "builders.mle runs a pure-Python loop with a fixed cap of 1e5 sweeps (20-30 s); non-convergence is covered in C12",
+    "mle() cases whose Prinz iteration does not stop within 3000 sweeps (probed with _prinz_mle_py(max_iter=3000)) are "
+    "skipped: builders.mle runs a pure-Python loop with a fixed cap of 1e5 sweeps (10-30 s); non-convergence is covered in C12",
     "returned counts: input + prior for normalize/mle, ((C+P) + (C+P)^T)/2 for transpose (docstring + upstream test)",
 ]
 SHARDS = {"quick": 4, "thorough": 16}
@@ -90,17 +90,29 @@ def builder_case(draw, n_max=7, builder_names=BUILDERS, container_names=None, eq
 # --------------------------------------------------------------------------------------------------
 # calling the library
 
-def mle_affordable(B):
-    """Budget guard only (never a verdict): builders.mle runs <= 1e5 pure-Python sweeps; skip the rare
-    matrices on which the same iteration (compiled twin, ln-equivalent tolerance) needs > 4000 sweeps."""
-    from enspara.msm.libmsm import _mle_prinz_dense
+def mle_affordable(B, sweeps=3000):
+    """Budget guard only (never a verdict): builders.mle runs up to 1e5 pure-Python sweeps (10-30 s) and the cap
+    cannot be set by the caller.  Probe the same iteration with max_iter=sweeps; any failure other than
+    non-convergence counts as 'affordable', so that the real call reports it."""
+    key = (B.shape, B.tobytes())
+    if key in _AFFORD:
+        return _AFFORD[key]
     try:
         with warnings.catch_warnings(record=True) as w:
             warnings.simplefilter("always")
-            _mle_prinz_dense(np.ascontiguousarray(B, dtype=np.float64), tol=1e-10 / 2.303, max_iter=4000)
-        return not any("converge" in str(x.message) for x in w)
+            builders._prinz_mle_py(np.array(B, dtype=np.float64), max_iter=sweeps)
+        ok = not any("converge" in str(x.message).lower() for x in w)
+    except TypeError:
+        ok = False         # unrepaired tree: the non-convergence warning itself raises TypeError
     except Exception:
-        return False
+        ok = True
+    if len(_AFFORD) > 64:
+        _AFFORD.clear()
+    _AFFORD[key] = ok       # pure function of B: memoised because one case calls the builder up to nine times
+    return ok
+
+
+_AFFORD = {}
 
 
 class Result:
@@ -119,7 +131,7 @@ def call(case, spec=None, eq=None, prior="case"):
     """Run the builder of the case on container `spec`; returns a Result with dense views of the outputs."""
     A, P, B = dense_inputs(case)
     if case["builder"] == "mle" and not mle_affordable(B):
-        raise Skip("mle needs > 4000 sweeps")
+        raise Skip("mle needs > 3000 sweeps")
     spec = spec or case["container"]
     x = R.to_container(A, spec)
     pv = R.prior_value(case["prior"]) if prior == "case" else prior
